@@ -100,9 +100,19 @@ type Run struct {
 	atomicVals map[*value]value
 	timerOf    map[*value]*timer
 	sleeps     []int64
+	noSched    int
+	curFrame   *frame
+	watched    map[*value]string
 }
 
 var R *Run // the single active run of this process
+
+func (r *Run) curFuncName() string {
+	if r.curFrame != nil && r.curFrame.fn != nil {
+		return r.curFrame.fn.String()
+	}
+	return "?"
+}
 
 func (r *Run) site(fr *frame) string {
 	if fr == nil || fr.fn == nil {
